@@ -100,7 +100,8 @@ def make_case(tier, seed, index):
     s = rnd.randint(HDR[fr], L - 1)
     d1 = rnd.choice([DEFAULT_LATENCY, tau / 4])
     d2 = rnd.choice([d1, tau / 2, tau - EPS, tau + EPS, 1.5 * tau])
-    cls = rnd.choice(["minus", "plus", "flip", "other", "garbage", "lone_refrag", "lone_refrag", "lone_ok", "late_rem"])
+    cls = rnd.choice(["minus", "plus", "flip", "other", "garbage", "lone_refrag", "lone_refrag", "lone_ok", "late_rem",
+                      "late_rem", "two_req", "two_req"])
     rem = L - s
     cmd = _cmd(fr, size, rnd)
     if cls == "minus":
@@ -122,7 +123,20 @@ def make_case(tier, seed, index):
         faults = [{"k": "frag_then", "s": s, "d1": d1, "d2": d2,
                    "what": {"raw": bytes(rnd.getrandbits(8) for _ in range(rem)).hex()}}]
     elif cls == "late_rem":
-        faults = [{"k": "frag", "s": s, "d1": d1, "d2": rnd.choice([tau + d1 + EPS, tau + d1, 2 * tau])}]
+        # the remainder arrives after the timeout, i.e. while a retransmission is already waiting for ITS answer,
+        # which is lost, prompt or late itself
+        faults = [{"k": "frag", "s": s, "d1": d1, "d2": rnd.choice([tau + d1 + EPS, tau + d1, 2 * tau, tau + EPS])},
+                  rnd.choice([{"k": "drop"}, {"k": "ok", "d": tau / 2}, {"k": "ok", "d": tau - EPS}])]
+    elif cls == "two_req":
+        # request 1: a truncated copy followed by the whole answer (succeeds, a fragment may stay stored);
+        # request 2 (same length): answer split so that its first piece has exactly the stale fragment's missing length
+        s2 = L - s
+        first = {"k": "frag_then", "s": s, "d1": d1, "d2": rnd.choice([d1, tau / 2]), "what": {"whole": 1}}
+        if HDR[fr] <= s2 <= L - 1:
+            second = {"k": "frag", "s": s2, "d1": DEFAULT_LATENCY, "d2": rnd.choice([2 * DEFAULT_LATENCY, tau / 2])}
+        else:
+            second = {"k": "frag", "s": max(1, min(s2, L - 1)), "d1": DEFAULT_LATENCY, "d2": 2 * DEFAULT_LATENCY}
+        faults = [first, second]
     else:
         # lone first piece; the retransmission's answer is split so that ITS first piece has exactly the length
         # that is still missing from the stale fragment (a stale stored fragment would 'fit')
@@ -135,8 +149,15 @@ def make_case(tier, seed, index):
             faults.append({"k": "frag", "s": max(1, s2), "d1": DEFAULT_LATENCY, "d2": 2 * DEFAULT_LATENCY})
         else:
             faults.append({"k": "ok"})
-    return {"kind": "neg", "framing": fr, "size": size, "cmd": cmd, "keep_alive": rnd.random() < 0.5,
+    case = {"kind": "neg", "framing": fr, "size": size, "cmd": cmd, "keep_alive": rnd.random() < 0.6,
             "timeout": tau, "retries": r, "timing": cls, "faults": faults}
+    if cls == "two_req":
+        cmd2 = dict(cmd)
+        if "reg" in cmd2:
+            cmd2["reg"] = (cmd2["reg"] + 300) & 0xFFFF
+        case["cmd2"] = cmd2
+        case["keep_alive"] = rnd.random() < 0.8
+    return case
 
 
 SHRINK_FROZEN = ("faults",)
@@ -172,6 +193,8 @@ def run_case(case):
 
     async def main():
         state["rec"] = await C.do_execute(world, proto, case["cmd"], "read")
+        if case.get("cmd2"):
+            state["rec2"] = await C.do_execute(world, proto, case["cmd2"], "read2")
 
     status, _ = C.run_world(world, main())
     net = world.net
@@ -196,6 +219,26 @@ def run_case(case):
                                        f"split at {case['faults'][0]['s']}: returned {rec['raw'].hex()} != "
                                        f"unsplit {net.answers[0].hex()}"))
     else:
+        recs = [x for x in (rec, state.get("rec2")) if x is not None and x["outcome"] == "result"]
+        for rr in recs if status == "ok" else []:
+            raw = rr["raw"]
+            # never combine a stored fragment with data received during a later transmission
+            dls = [d for d in net.deliveries if d["kind"] == "data" and d["status"] == "delivered"]
+            singles_ = {d["data"] for d in dls}
+            if raw not in singles_:
+                for a in dls:
+                    for b in dls:
+                        if a is not b and a["t_run"] <= b["t_run"] and a["data"] + b["data"] == raw:
+                            crossed = [t["i"] for t in net.transmissions if a["t_run"] < t["t"] <= b["t_run"]]
+                            if crossed:
+                                violations.append(viol(f"C07:stale-fragment:{fr}",
+                                                       f"{case['timing']}: result {raw.hex()} was composed of a piece "
+                                                       f"received at t={a['t_run']} and a piece received at "
+                                                       f"t={b['t_run']} although transmission(s) {crossed} were made "
+                                                       f"in between"))
+                            break
+                    if violations:
+                        break
         if status == "ok" and outcome == "result":
             raw = rec["raw"]
             whole = {a for a in answers}
